@@ -82,7 +82,7 @@ var clientParamMethods = setOf("o", "string", "context", "httpclient", "writetor
 var modelMethods = setOf("validate", "contextvalidate", "marshalbinary", "unmarshalbinary", "marshaljson", "unmarshaljson")
 var templateImports = setOf("err", "res", "ok", "raw", "rr", "route", "fds", "qs", "qr", "qv", "hdr", "tpe", "file", "header", "http", "params", "runtime", "swag", "errors", "strfmt", "middleware", "security", "spec", "loads", "validate", "context", "io", "json", "fmt", "strings", "os", "url", "net", "flags", "server", "tls", "log", "time", "sync", "atomic", "signal", "strconv", "golangswaggerpaths", "yamlpc", "interpose", "cr", "cobra", "viper", "client", "models", "httptransport", "operations", "restapi", "path", "homedir", "bytes", "reader", "bufio", "multipart", "mime")
 var badTags = setOf("principal", "api", "models", "bool", "error", "string", "nil", "len", "new", "true", "false", "append", "make", "init", "main", "o", "restapi", "cli", "io", "os", "strconv", "context")
-var cliImports = setOf("json", "fmt", "swag", "cobra", "viper", "strfmt", "errors", "runtime", "client", "models", "httptransport", "os", "log", "path", "homedir")
+var cliImports = setOf("cmd", "cli", "args", "command", "flag", "flags", "config", "json", "fmt", "swag", "cobra", "viper", "strfmt", "errors", "runtime", "client", "models", "httptransport", "os", "log", "path", "homedir")
 var rePlainIdent = regexp.MustCompile(`^[A-Za-z_][A-Za-z0-9_.\-]*$`)
 
 var reSimpleWord = regexp.MustCompile(`^[a-z][a-z0-9]{2,}$`)
